@@ -40,7 +40,7 @@ class C15(BaseCheck):
   ASSUMPTIONS = ('topics and payloads are bytes (the only form the Python-3 code path and the '
                  'repository\'s own test use)',)
   QUICK_CASES = 640
-  THOROUGH_CASES = 12000
+  THOROUGH_CASES = 60000
   QUICK_WALL = 40
   THOROUGH_WALL = 300
   MIN_DISTINCT = 10
